@@ -11,7 +11,42 @@ use std::io::Write;
 use std::panic::{catch_unwind, AssertUnwindSafe};
 use std::process::{Command, Stdio};
 
+#[cfg(feature = "c02")]
+pub mod c02;
+#[cfg(feature = "c03")]
+pub mod c03;
+#[cfg(feature = "c04")]
+pub mod c04;
+#[cfg(feature = "c05")]
+pub mod c05;
+#[cfg(feature = "c06")]
 pub mod c06;
+#[cfg(feature = "c07")]
+pub mod c07;
+#[cfg(feature = "c08")]
+pub mod c08;
+#[cfg(feature = "c09")]
+pub mod c09;
+#[cfg(feature = "c10")]
+pub mod c10;
+#[cfg(feature = "c11")]
+pub mod c11;
+#[cfg(feature = "c13")]
+pub mod c13;
+#[cfg(feature = "c14")]
+pub mod c14;
+#[cfg(feature = "c15")]
+pub mod c15;
+#[cfg(feature = "c16")]
+pub mod c16;
+#[cfg(feature = "c17")]
+pub mod c17;
+#[cfg(feature = "c18")]
+pub mod c18;
+#[cfg(feature = "c19")]
+pub mod c19;
+#[cfg(feature = "c20")]
+pub mod c20;
 
 /// Deterministic PRNG (splitmix64); every random choice of a run derives from `VERIF_SEED`.
 #[derive(Clone)]
@@ -257,11 +292,81 @@ pub fn run_request(req: &str) -> String {
     let mut it = req.split(' ');
     let cmd = it.next().unwrap_or("");
     let args: Vec<&str> = it.collect();
-    match cmd {
-        "trg" => args.first().and_then(|h| unhex(h)).map(|b| c06::run_impl(&b).0),
-        _ => None,
+    let _ = (&cmd, &args);
+    let mut ans: Option<String> = None;
+    #[cfg(feature = "c02")]
+    {
+        ans = ans.or_else(|| c02::run_request(cmd, &args));
     }
-    .unwrap_or_else(|| "unsupported-request".to_string())
+    #[cfg(feature = "c03")]
+    {
+        ans = ans.or_else(|| c03::run_request(cmd, &args));
+    }
+    #[cfg(feature = "c04")]
+    {
+        ans = ans.or_else(|| c04::run_request(cmd, &args));
+    }
+    #[cfg(feature = "c05")]
+    {
+        ans = ans.or_else(|| c05::run_request(cmd, &args));
+    }
+    #[cfg(feature = "c06")]
+    {
+        ans = ans.or_else(|| c06::run_request(cmd, &args));
+    }
+    #[cfg(feature = "c07")]
+    {
+        ans = ans.or_else(|| c07::run_request(cmd, &args));
+    }
+    #[cfg(feature = "c08")]
+    {
+        ans = ans.or_else(|| c08::run_request(cmd, &args));
+    }
+    #[cfg(feature = "c09")]
+    {
+        ans = ans.or_else(|| c09::run_request(cmd, &args));
+    }
+    #[cfg(feature = "c10")]
+    {
+        ans = ans.or_else(|| c10::run_request(cmd, &args));
+    }
+    #[cfg(feature = "c11")]
+    {
+        ans = ans.or_else(|| c11::run_request(cmd, &args));
+    }
+    #[cfg(feature = "c13")]
+    {
+        ans = ans.or_else(|| c13::run_request(cmd, &args));
+    }
+    #[cfg(feature = "c14")]
+    {
+        ans = ans.or_else(|| c14::run_request(cmd, &args));
+    }
+    #[cfg(feature = "c15")]
+    {
+        ans = ans.or_else(|| c15::run_request(cmd, &args));
+    }
+    #[cfg(feature = "c16")]
+    {
+        ans = ans.or_else(|| c16::run_request(cmd, &args));
+    }
+    #[cfg(feature = "c17")]
+    {
+        ans = ans.or_else(|| c17::run_request(cmd, &args));
+    }
+    #[cfg(feature = "c18")]
+    {
+        ans = ans.or_else(|| c18::run_request(cmd, &args));
+    }
+    #[cfg(feature = "c19")]
+    {
+        ans = ans.or_else(|| c19::run_request(cmd, &args));
+    }
+    #[cfg(feature = "c20")]
+    {
+        ans = ans.or_else(|| c20::run_request(cmd, &args));
+    }
+    ans.unwrap_or_else(|| "unsupported-request".to_string())
 }
 
 /// Install a silent panic hook (panics are expected and caught per case).
